@@ -138,8 +138,16 @@ class Scheduler(object):
         except SimAbort:
             pass
         except BaseException as ex:   # noqa
+            # like threading's excepthook: report and let go.  Keeping the traceback would keep the thread's frames - and
+            # whatever their locals own (sockets!) - alive, which no real thread does
+            import traceback as _tb
+            t.exc_text = _tb.format_exc()
+            e = ex
+            while e is not None:
+                e.__traceback__ = None
+                e = e.__cause__ or e.__context__
             t.exc = ex
-            t.exc_info = sys.exc_info()
+            t.exc_info = None
         finally:
             # dropping our reference to the thread's last frame may run finalizers (proxy release notices ...) that
             # reach scheduling points: that must happen while the thread still counts as running
@@ -647,8 +655,14 @@ class SimThread(object):
         self._lt = None
 
     def run(self):
-        if self._target is not None:
-            self._target(*self._args, **self._kwargs)
+        try:
+            if self._target is not None:
+                self._target(*self._args, **self._kwargs)
+        finally:
+            # as threading.Thread.run does: a finished thread does not keep its target and arguments alive
+            self._target = None
+            self._args = ()
+            self._kwargs = {}
 
     def start(self):
         s, me = _sched_me()
